@@ -62,6 +62,15 @@ func scenC01Pub(r *Run) {
 			f.Serve(u, Doc{"id": u, "type": "Note", "name": 5, "content": "x", "mediaType": "text/" + hb + "weird", "published": "not-a-date" + hb,
 				"attributedTo": "https://h1.example/\u001b[2J", "url": Doc{"type": "Link", "href": "https://h\u0007/" + hb, "mediaType": hb}, "attachment": []any{Doc{"type": "Image", "url": "::" + hb, "name": hb + "alt"}}})
 		}
+		if t.Chance(1, 3) {
+			// two faults in one exchange: the hostile bytes arrive, then the connection is reset, so
+			// that closing it fails as well (errors are then joined, wrapped, listed)
+			if r.Net.TargetFault == nil {
+				r.Net.TargetFault = map[string]Fault{}
+			}
+			r.Net.TargetFault[fmt.Sprintf("h1.example|/bad/%d", i)] = Fault{Kind: FCut, Arg: 1 << 30, End: EndRSTLate}
+			r.S.Probe("c01_hostile_exchange_then_reset")
+		}
 		urls = append(urls, u)
 		// healthy items that reach the hostile exchange through a secondary fetch: the error is
 		// then shown inline (activity header, actor footer, post header/parents/comments)
